@@ -44,6 +44,15 @@ func VerifC03OriginFaults() {
 	if fault == 0 {
 		refusal = vf.Choice("refusal-shape", 6)
 	}
+	// what a non-HTTP origin sends: another protocol's banner, or something that starts like a
+	// response and then carries a header line with a control byte (the transport's error quotes
+	// that line, and the 502 must be well formed all the same)
+	nonHTTP := []byte("SSH-2.0-OpenSSH_8.9\r\n")
+	if fault == 1 {
+		if c := vf.Choice("non-http-shape", 4); c > 0 {
+			nonHTTP = []byte("HTTP/1.1 200 OK\r\nX-Gar" + string([]byte{0, 0x00, 0x7f, 0x01}[c:c+1]) + "bage: v\r\n\r\n")
+		}
+	}
 	var k int
 	o := &zzorigin{}
 	o.answer = func(i int, req *http.Request) (*http.Response, error) {
@@ -67,7 +76,7 @@ func VerifC03OriginFaults() {
 			}
 			return nil, errors.New("dial tcp: connection refused")
 		case 1:
-			return zzrawResponse([]byte("SSH-2.0-OpenSSH_8.9\r\n"), req)
+			return zzrawResponse(nonHTTP, req)
 		default:
 			return zzrawResponse(full[:k], req)
 		}
